@@ -32,7 +32,7 @@ where
         calls.push(call(&["C17"], format!("from_str::<{key} unit>({text})"), move || match serde_json::from_str::<Q::UnitType>(&t2) {
             Ok(u) => format!("{:?}", u),
             Err(e) => format!("error: {e}"),
-        }));
+        }).rep_if(i == 0));
         // a value in that unit through the data-model tree (serialised by the implementation itself)
         let q = Q::new(amt::parse("2.5"), b.units[i]);
         if let Ok(Ok(v)) = guard(|| serde_json::to_value(q)) {
